@@ -197,7 +197,10 @@ class SensitiveWordAnonymizer(object):
         # Fixed order (longest first) so the result does not depend on set
         # iteration order, i.e. on the interpreter's hash seed
         ordered_words = sorted(sensitive_words, key=lambda w: (-len(w), w))
-        return re.compile("({})".format("|".join(ordered_words)), re.IGNORECASE)
+        return re.compile(
+            "({})".format("|".join(re.escape(w) for w in ordered_words)),
+            re.IGNORECASE,
+        )
 
     def _get_or_generate_sensitive_word_replacement(self, sensitive_word):
         """Return the replacement string for the given sensitive word.
